@@ -16,6 +16,7 @@ import (
 	"path/filepath"
 	"runtime"
 	"strings"
+	"sync"
 	"time"
 
 	"github.com/notaryproject/notation-core-go/signature"
@@ -39,6 +40,8 @@ type Input struct {
 	Blob    string `json:"blob"`
 	Manager bool   `json:"manager"`
 	Sig     string `json:"sig"`
+	Named   bool   `json:"named"`   // blob statement asked for by name (false: empty name, the GLOBAL statement)
+	Workers int    `json:"workers"` // goroutines using the one object under test at once (1 = sequential)
 	Fuzz    bool   `json:"fuzz"`
 	Label   string `json:"label"`
 	Data    string `json:"data"`
@@ -66,7 +69,10 @@ type world struct {
 	sigs     map[string][]byte // OCI signatures by kind
 	blobSigs map[string][]byte
 	maxHeap  uint64
+	mu       sync.Mutex // guards panics (entry points are also called from several goroutines)
 	panics   []string
+	// when set: the matrix verifiers read their certificates through the library's file trust store rooted here
+	fileStore string
 }
 
 func newWorld() *world {
@@ -91,11 +97,20 @@ func sv(level string) trustpolicy.SignatureVerification {
 	return s
 }
 
-func (w *world) verifier(in Input) (notation.Verifier, notation.BlobVerifier, interface {
+type skipper interface {
 	SkipVerify(context.Context, notation.VerifierVerifyOptions) (bool, *trustpolicy.VerificationLevel, error)
-}) {
-	store := common.NewMemStore()
-	store.Certs["ca:c12"] = []*x509.Certificate{w.chain.Root().Cert}
+}
+
+func (w *world) verifier(in Input) (notation.Verifier, notation.BlobVerifier, skipper) {
+	var store truststore.X509TrustStore
+	if w.fileStore != "" {
+		// the library's own trust store over files (ca/c12 holds the root)
+		store = truststore.NewX509TrustStore(dir.NewSysFS(w.fileStore))
+	} else {
+		ms := common.NewMemStore()
+		ms.Certs["ca:c12"] = []*x509.Certificate{w.chain.Root().Cert}
+		store = ms
+	}
 	opts := verifier.VerifierOptions{}
 	stores, ids := []string{"ca:c12"}, []string{"*"}
 	switch in.OCI {
@@ -110,9 +125,11 @@ func (w *world) verifier(in Input) (notation.Verifier, notation.BlobVerifier, in
 	case "noMatch":
 		opts.BlobTrustPolicy = &trustpolicy.BlobDocument{Version: "1.0", TrustPolicies: []trustpolicy.BlobTrustPolicy{{Name: "other", SignatureVerification: sv("strict"), TrustStores: stores, TrustedIdentities: ids}}}
 	case "skip":
+		// (Validate refuses a GLOBAL statement of level skip: asked for without a name, this document has no statement to offer)
 		opts.BlobTrustPolicy = &trustpolicy.BlobDocument{Version: "1.0", TrustPolicies: []trustpolicy.BlobTrustPolicy{{Name: "c12", SignatureVerification: sv("skip")}}}
 	case "enforce":
-		opts.BlobTrustPolicy = &trustpolicy.BlobDocument{Version: "1.0", TrustPolicies: []trustpolicy.BlobTrustPolicy{{Name: "c12", SignatureVerification: sv("strict"), TrustStores: stores, TrustedIdentities: ids}}}
+		// asked for without a name, the statement that applies is the document's GLOBAL one
+		opts.BlobTrustPolicy = &trustpolicy.BlobDocument{Version: "1.0", TrustPolicies: []trustpolicy.BlobTrustPolicy{{Name: "c12", SignatureVerification: sv("strict"), TrustStores: stores, TrustedIdentities: ids, GlobalPolicy: !in.Named}}}
 	}
 	if in.Manager {
 		opts.PluginManager = &common.ScriptedManager{Plugins: map[string]pluginfw.Plugin{}}
@@ -122,9 +139,7 @@ func (w *world) verifier(in Input) (notation.Verifier, notation.BlobVerifier, in
 		panic(fmt.Sprintf("c12: NewVerifierWithOptions: %v", err))
 	}
 	// the optional skip interface, by a RUNTIME assertion as notation.Verify does (nil = the verifier never skips)
-	sk, _ := any(v).(interface {
-		SkipVerify(context.Context, notation.VerifierVerifyOptions) (bool, *trustpolicy.VerificationLevel, error)
-	})
+	sk, _ := any(v).(skipper)
 	return v, v, sk
 }
 
@@ -156,9 +171,11 @@ func (w *world) guard(label string, f func()) (panicked bool) {
 	defer func() {
 		if r := recover(); r != nil {
 			panicked = true
+			w.mu.Lock()
 			if len(w.panics) < 5 {
 				w.panics = append(w.panics, fmt.Sprintf("%s: %v", label, r))
 			}
+			w.mu.Unlock()
 		}
 	}()
 	f()
@@ -175,9 +192,26 @@ func (w *world) heapCheck() bool {
 }
 
 func (w *world) runMatrix(in Input) Obs {
+	var o Obs
+	if w.guard(in.Entry, func() {
+		v, bv, sk := w.verifier(in)
+		o = w.callEntry(in, v, bv, sk)
+	}) {
+		o = Obs{Panicked: true}
+	}
+	return o
+}
+
+// callEntry runs one entry point of the matrix on an already built verifier (which several
+// goroutines may share) and canonicalises what it observed.
+func (w *world) callEntry(in Input, v notation.Verifier, bv notation.BlobVerifier, skipper skipper) Obs {
 	ctx := context.Background()
 	o := Obs{Consistent: true}
 	selected := func(st string) bool { return st == "skip" || st == "enforce" }
+	blobStmt := in.Blob
+	if !in.Named && blobStmt == "skip" {
+		blobStmt = "noMatch" // no global statement
+	}
 	vconsistent := func(err error, out *notation.VerificationOutcome, sel bool) bool {
 		if err == nil && (out == nil || out.Error != nil) {
 			return false
@@ -188,9 +222,11 @@ func (w *world) runMatrix(in Input) Obs {
 		return true
 	}
 	o.Panicked = w.guard(in.Entry, func() {
-		v, bv, skipper := w.verifier(in)
 		vopts := notation.VerifierVerifyOptions{ArtifactReference: ref + "@" + target.Digest.String(), SignatureMediaType: common.MediaJWS}
 		bopts := notation.BlobVerifierVerifyOptions{SignatureMediaType: common.MediaJWS, TrustPolicyName: "c12"}
+		if !in.Named {
+			bopts.TrustPolicyName = "" // the global statement
+		}
 		gen := func(a digest.Algorithm) (ocispec.Descriptor, error) {
 			return ocispec.Descriptor{Digest: a.FromBytes(blob), Size: int64(len(blob))}, nil
 		}
@@ -200,13 +236,13 @@ func (w *world) runMatrix(in Input) Obs {
 			o.Err, o.Outcome, o.Consistent = err != nil, outcomeOf(out), vconsistent(err, out, selected(in.OCI))
 		case "vVerifyBlob":
 			out, err := bv.VerifyBlob(ctx, gen, w.blobSigs[in.Sig], bopts)
-			o.Err, o.Outcome, o.Consistent = err != nil, outcomeOf(out), vconsistent(err, out, selected(in.Blob))
+			o.Err, o.Outcome, o.Consistent = err != nil, outcomeOf(out), vconsistent(err, out, selected(blobStmt))
 		case "vVerifyBlobGenError":
 			bad := func(a digest.Algorithm) (ocispec.Descriptor, error) {
 				return ocispec.Descriptor{}, errors.New("blob cannot be read")
 			}
 			out, err := bv.VerifyBlob(ctx, bad, w.blobSigs[in.Sig], bopts)
-			o.Err, o.Outcome, o.Consistent = err != nil, outcomeOf(out), vconsistent(err, out, selected(in.Blob))
+			o.Err, o.Outcome, o.Consistent = err != nil, outcomeOf(out), vconsistent(err, out, selected(blobStmt))
 		case "skipVerify":
 			if skipper == nil {
 				// not a skipper: nothing is skipped, nothing fails
@@ -282,7 +318,7 @@ func mutate(c *common.Ctx, src []byte) []byte {
 
 func (w *world) fuzz(c *common.Ctx, n int) {
 	ctx := context.Background()
-	base := Input{OCI: "enforce", Blob: "enforce", Manager: true, Sig: "garbage", Fuzz: true}
+	base := Input{OCI: "enforce", Blob: "enforce", Manager: true, Sig: "garbage", Named: true, Workers: 1, Fuzz: true}
 	v, bv, _ := w.verifier(base)
 	cose := common.MustSign(common.EnvOpts{Format: common.MediaCOSE, Chain: w.chain, Target: &target})
 	gen := func(a digest.Algorithm) (ocispec.Descriptor, error) {
@@ -302,7 +338,7 @@ func (w *world) fuzz(c *common.Ctx, n int) {
 			p = true
 		}
 		o := Obs{Panicked: p, Consistent: consistent && !p}
-		c.Emit(in, o)
+		emitCase(c, in, o)
 		c.Count("fuzz=" + label)
 	}
 	pair := func(out *notation.VerificationOutcome, err error) bool {
@@ -402,7 +438,9 @@ func (w *world) fuzz(c *common.Ctx, n int) {
 					return true
 				}
 				if doc.Validate() == nil {
-					doc.GetApplicableTrustPolicy("reg.example/a@" + target.Digest.String())
+					for _, r := range []string{"reg.example/a@" + target.Digest.String(), "", "@", "reg.example/a", "reg.example/a:tag", "*"} {
+						doc.GetApplicableTrustPolicy(r)
+					}
 					for _, p := range doc.TrustPolicies {
 						p.SignatureVerification.GetVerificationLevel()
 					}
@@ -420,7 +458,9 @@ func (w *world) fuzz(c *common.Ctx, n int) {
 					return true
 				}
 				if doc.Validate() == nil {
-					doc.GetApplicableTrustPolicy("a")
+					for _, name := range []string{"a", "", " ", "absent"} {
+						doc.GetApplicableTrustPolicy(name)
+					}
 					doc.GetGlobalTrustPolicy()
 				}
 				return true
@@ -477,10 +517,22 @@ func (w *world) fuzz(c *common.Ctx, n int) {
 	_ = plugin.NewCLIManager
 }
 
+// emitCase fills the defaults of the dimensions a sampled case does not vary (one goroutine)
+func emitCase(c *common.Ctx, in Input, o Obs) {
+	if in.Workers == 0 {
+		in.Workers = 1
+	}
+	c.Emit(in, o)
+}
+
 // Run: the full configuration matrix, then the malformed-input stream.
 func Run(c *common.Ctx) error {
 	w := newWorld()
-	if os.Getenv("XVERIF_C12_CHILD") != "" {
+	if child := os.Getenv("XVERIF_C12_CHILD"); child != "" {
+		if strings.HasPrefix(child, "conc:") {
+			w.concurrentChild(c, child) // child mode: one concurrent stage, then exit
+			return nil
+		}
 		w.sweepRegistry(c) // child mode: one hostile-registry case, then exit
 		return nil
 	}
@@ -493,13 +545,16 @@ func Run(c *common.Ctx) error {
 				}
 				for _, mgr := range []bool{false, true} {
 					for _, sig := range []string{"valid", "garbage", "demandsPlugin"} {
-						in := Input{Entry: entry, OCI: oci, Blob: bl, Manager: mgr, Sig: sig}
-						o := w.runMatrix(in)
-						c.Emit(in, o)
-						c.Count("entry=" + entry)
-						c.Count(fmt.Sprintf("err=%v", o.Err))
-						if o.Panicked {
-							c.Count("panicked")
+						for _, named := range []bool{true, false} {
+							in := Input{Entry: entry, OCI: oci, Blob: bl, Manager: mgr, Sig: sig, Named: named, Workers: 1}
+							o := w.runMatrix(in)
+							emitCase(c, in, o)
+							c.Count("entry=" + entry)
+							c.Count(fmt.Sprintf("named=%v", named))
+							c.Count(fmt.Sprintf("err=%v", o.Err))
+							if o.Panicked {
+								c.Count("panicked")
+							}
 						}
 					}
 				}
@@ -517,11 +572,13 @@ func Run(c *common.Ctx) error {
 	}
 	w.sweepVerifier(c, sweepN)
 	w.sweepConstructors(c)
+	w.sweepConfigFiles(c)
 	w.sweepPluginOutput(c)
 	w.sweepRegistry(c)
+	w.sweepConcurrent(c)
 	for _, p := range w.panics {
 		c.Note("panic: %s", p)
 	}
-	c.Note("configuration matrix: 7 entry points x OCI document {missing, no match, skip, enforce} x blob document (same) x plugin manager {nil, present} x signature {valid, garbage, demands a missing plugin} (exhaustive); malformed-input stream (sampled, fuzz-style): mutated JWS/COSE envelopes, random bytes, OCI/blob policy JSON, config.json / signingkeys.json, CRL cache entries, trust store files; verifier configuration sweep (valid-but-unusual signatures: countersigned, numeric COSE labels, plugin attributes x plugin manager / plugin answers x revocation options x tsa policies; verdict not modelled, only no-panic + pair consistency); hostile OCI layout sweep (lying layer sizes up to 2^63-1, null fields, hand-made descriptors) through ListSignatures / FetchSignatureBlob / notation.Verify; heap high-water mark %d MiB", w.maxHeap>>20)
+	c.Note("configuration matrix: 8 entry points x OCI document {missing, no match, skip, enforce} x blob document (same) x plugin manager {nil, present} x signature {valid, garbage, demands a missing plugin} x blob statement asked for {by name, empty name = global statement} (exhaustive); configuration-file sweep (every file the library reads x {absent, empty, every 1- and 2-byte string over a small alphabet, byte order marks alone / before the document / cut, every prefix of the valid document, UTF-16, directory / symlink in place of the file, ...} through the file-based loaders and New*FromConfig constructors, the loaded object then used); concurrent stages (child processes: one trust store / verifier / plugin manager / document / CRL cache / repository / signer shared by several goroutines, every goroutine must observe the sequential observation, a crashed child is the violation); malformed-input stream (sampled, fuzz-style): mutated JWS/COSE envelopes, random bytes, OCI/blob policy JSON, config.json / signingkeys.json, CRL cache entries, trust store files; verifier configuration sweep (valid-but-unusual signatures: countersigned, numeric COSE labels, plugin attributes x plugin manager / plugin answers x revocation options x tsa policies; verdict not modelled, only no-panic + pair consistency); hostile OCI layout sweep (lying layer sizes up to 2^63-1, null fields, hand-made descriptors) through ListSignatures / FetchSignatureBlob / notation.Verify; heap high-water mark %d MiB", w.maxHeap>>20)
 	return nil
 }
